@@ -3,6 +3,8 @@
 #pragma once
 #include <algorithm>
 #include <cmath>
+#include <csignal>
+#include <exception>
 #include <cstdint>
 #include <cstdio>
 #include <cstdlib>
@@ -54,15 +56,36 @@ struct Ev
   std::string done() const {return s + "}\n";}
 };
 
+// A crash of the code under test (failed assert, segmentation fault, uncaught exception) on an input of the property's domain is
+// an observation, not a failure of the machinery: it is recorded as a final {"e":"crash"} event, which no specification accepts.
+struct Out;
+inline Out * & openOut(int k) {static Out * outs[4] = {nullptr, nullptr, nullptr, nullptr}; return outs[k];}
+inline void crashHandler(int sig);
 struct Out
 {
   FILE * f;
   long long lines = 0;
-  explicit Out(const char * path) {f = std::fopen(path, "w"); if (!f) {std::perror(path); std::exit(3);}}
-  ~Out() {if (f) {std::fclose(f);}}
+  explicit Out(const char * path)
+  {
+    f = std::fopen(path, "w"); if (!f) {std::perror(path); std::exit(3);}
+    for (int k = 0; k < 4; ++k) {if (!openOut(k)) {openOut(k) = this; break;}}
+    std::signal(SIGABRT, crashHandler); std::signal(SIGSEGV, crashHandler); std::signal(SIGFPE, crashHandler);
+    std::set_terminate([]() {crashHandler(0);});
+  }
+  ~Out() {for (int k = 0; k < 4; ++k) {if (openOut(k) == this) {openOut(k) = nullptr;}} if (f) {std::fclose(f);}}
   void put(const Ev & e) {auto s = e.done(); std::fwrite(s.data(), 1, s.size(), f); ++lines;}
   void puts(const std::string & s) {std::fwrite(s.data(), 1, s.size(), f); ++lines;}
 };
+
+inline void crashHandler(int sig)
+{
+  for (int k = 0; k < 4; ++k) {
+    Out * o = openOut(k);
+    if (o && o->f) {std::fprintf(o->f, "{\"e\":\"crash\",\"sig\":%d}\n", sig); std::fflush(o->f);}
+  }
+  std::fprintf(stderr, "code under test crashed (signal %d): recorded as a crash event\n", sig);
+  std::_Exit(0);
+}
 
 struct Rng
 {
